@@ -13,6 +13,7 @@
 import Optyx.Lemmas.JacCompile
 import Optyx.Props.C02
 import Optyx.Drive.Jac
+import Optyx.Props.Closures
 
 namespace Optyx.Props.C03
 open Optyx Optyx.Py Optyx.Py.Jac NumAlg
